@@ -7,7 +7,7 @@ import z3
 from sx import core as S, env as E, npshim
 
 PROPERTY = "C19"
-REGIONS = ["edited-in-place-between-calls", "ndim1", "ndim2", "ndim3", "symbolic-matrix", "concrete-matrix", "satisfied-true", "satisfied-false"]
+REGIONS = ["points-dtype-unsigned", "points-dtype-signed-narrow", "edited-in-place-between-calls", "ndim1", "ndim2", "ndim3", "symbolic-matrix", "concrete-matrix", "satisfied-true", "satisfied-false"]
 BOUNDS = ("rows<=3, columns<=3, points per group<=3, groups<=2; fully symbolic matrix entries, right-hand sides and coordinates with |.|<=20 "
           "for shapes up to 2x2 with <=2 points (products are symbolic x symbolic: QF_NIA, but oracle and code share the same product terms); "
           "larger shapes use concrete matrices over {-2..2} with symbolic b and symbolic points")
@@ -44,6 +44,11 @@ def instantiations(tier, seed):
             if r * npt * ngr > budget:
                 ngr = 1
             out.append({"rows": r, "cols": c, "ndim": nd, "npts": npt, "ngroups": ngr, "fn": fn, "A": A})
+    # the points array may come in any integer dtype (compact uint8 0/1 configurations, int8, int32): same symbolic run, the real runs use that dtype
+    for pd in ("uint8", "uint16", "int8", "int32", "uint64"):
+        for fn in FUNS:
+            nd = 1 + (len(pd) + FUNS.index(fn)) % 3
+            out.append({"rows": 2, "cols": 2, "ndim": nd, "npts": 1 if nd == 1 else 2, "ngroups": 2 if nd == 3 else 1, "fn": fn, "A": [[1, 1], [-1, -1]], "pdtype": pd})
     # the polyhedron is an ndarray: it may be edited in place between two calls; the second call must describe the edited matrix
     for (r, c) in [(1, 2), (2, 2)]:
         for fn in FUNS:
@@ -66,7 +71,8 @@ def run_inst(spec, run):
             else:
                 A = [[S.K(v) for v in row] for row in spec["A"]]
             b = [ctx.int("b%d" % i, -20, 20) for i in range(r)]
-            pts = [[[ctx.int("p%d_%d_%d" % (g, k, j), -20, 20) for j in range(c)] for k in range(npts)] for g in range(ng)]
+            plo, phi = (0, 20) if str(spec.get("pdtype", "")).startswith("u") else (-20, 20)
+            pts = [[[ctx.int("p%d_%d_%d" % (g, k, j), plo, phi) for j in range(c)] for k in range(npts)] for g in range(ng)]
             M = npshim.obj_matrix([[b[i]] + A[i] for i in range(r)])
             P = ns.pnd.ge_polyhedron(M)
             if nd == 1:
@@ -108,6 +114,8 @@ def run_inst(spec, run):
                 run.obligation(ctx, "raises", True, conc, extra=rs["err"])
                 return
             run.region("ndim%d" % nd)
+            if spec.get("pdtype"):
+                run.region("points-dtype-" + ("unsigned" if spec["pdtype"].startswith("u") else "signed-narrow"))
             if spec.get("edit"):
                 run.region("edited-in-place-between-calls")
             run.region("symbolic-matrix" if spec["A"] is None else "concrete-matrix")
@@ -153,7 +161,10 @@ def run_inst(spec, run):
                 run.obligation(ctx, "output-shape", True, conc, extra="shape %s" % (res.shape,))
                 return
             run.obligation(ctx, "classification", z3.Or(viol), conc)
-            run.validate(ctx, conc, lambda m: {"res": np.asarray(res).astype(int).tolist()})
+            ext = None
+            if spec.get("pdtype"):
+                ext = z3.Or([z3.Or(b[i].e > 0, b[i].e < 0) for i in range(r)])      # rows with a non-zero right-hand side
+            run.validate(ctx, conc, lambda m: {"res": np.asarray(res).astype(int).tolist()}, extremes=ext)
             run.sample({"shape": [r, c], "ndim": nd, "fn": spec["fn"], "A": spec["A"] or "symbolic", "path_condition": [str(z3.simplify(x)) for x in ctx.pc][:4]})
 
         st = S.explore(fn, on_path, max_paths=20000, wall=900, timeout_ms=60000)
